@@ -354,6 +354,7 @@ func vh_C03_L10_reset_response_for_unknown_request() {
 			want = 1
 		}
 		vassert(len(a.reconfigs) == want && s.sequenceNumber == ssn, "a response that answers no outstanding request changes nothing")
+		vassert(a.tReconfig.isRunning() == outstanding, "in particular the request that is outstanding keeps being retransmitted")
 	} else if result != reconfigResultInProgress {
 		vassert(len(a.reconfigs) == 0, "a final answer retires the request it answers")
 	}
@@ -362,3 +363,9 @@ func vh_C03_L10_reset_response_for_unknown_request() {
 	vassert(vLocksFree(a, s), "no lock is left held")
 	vcover("end")
 }
+
+// C03.L11: a COOKIE ECHO with the wrong cookie during the handshake does not cancel the
+// handshake's retransmissions (= C04.L2b); a stream reset request whose last TSN lies beyond
+// the 2^32 wrap of the cumulative point is deferred, not performed (= C14.L2).
+func vh_C03_L11_forged_cookie_echo_keeps_the_handshake_alive() { vh_C04_L2_stale_cookie_echo_keeps_retries() }
+func vh_C03_L11_reset_request_beyond_the_wrap_is_deferred()    { vh_C14_L2_deferred_reset() }
